@@ -168,7 +168,7 @@ def prog_history(kit, actor, doc, elem, cfg):
     shape = cfg.get('shape') or rng.choice(SHAPES)
     nsteps = cfg.get('nsteps') or rng.randint(3, cfg.get('nsteps_max', 14) if rng.random() < 0.5 else 14)
     wts = dict(add=6, add_bad=1.5, add_foreign=0.4, add_to_leaf=0.25, readd=0.5, remove_stale=0.25, weird=0.0, replace_raw=0.25,
-               add_attached=0.0,
+               add_attached=0.0, xsd_toggle=0.0, remove_elsewhere=0.0, attr_xml=0.3, padded=0.0,
                fwd=0.5, remove=2, replace=1, replace_other=0.4,
                dot_value=0.7, dot_element=0.6, dot_none=0.6, to_string=1.2, to_string_ic=0.5, check=0.5,
                check_ic=0.2, complete=0.8, read=0.6, attr=0.4, attr_bad=0.2, value_bad=0.2, remove_foreign=0.2,
@@ -310,8 +310,15 @@ def _one_random(kit, actor, doc, root, sub, wts, cfg):
         r = rng.random()
         if r < 0.35:
             yield {'op': 'VALUE_SET', 'a': actor, 'p': path, 'value': rng.choice(pool)}
-        elif r < 0.6 and sub:
+        elif r < 0.5 and sub:
             yield {'op': 'DOT_SET', 'a': actor, 'p': path, 'name': rng.choice(sub), 'v': {'kind': 'value', 'value': rng.choice(pool)}}
+        elif r < 0.6:
+            # malformed shortcut names: xml_, xml_step_, xml__step, xml_key__step
+            nm = rng.choice(['', (rng.choice(sub) if sub else 'step') + '-', '-' + (rng.choice(sub) if sub else 'step'), 'key--step', '-'])
+            if rng.random() < 0.5:
+                yield {'op': 'DOT_SET', 'a': actor, 'p': path, 'name': nm, 'v': {'kind': 'value', 'value': rng.choice(['a', 1, None])}}
+            else:
+                yield {'op': 'DOT_GET', 'a': actor, 'p': path, 'name': nm}
         elif r < 0.8:
             at = kit.valid_attrs(node.name, 1)
             for k in at:
@@ -356,6 +363,48 @@ def _one_random(kit, actor, doc, root, sub, wts, cfg):
                     tp = w.path_of(t)
                     if tp:
                         yield {'op': 'ADD', 'a': actor, 'p': tp, 'attached': cp, 'c': {'name': c.name}, 'fault': 'rej.attached_child'}
+    elif kind == 'padded':
+        # free text with leading / trailing / doubled white space, assigned after construction
+        texty = [c for c in node.children if spec.type_kind(spec.ELEM_TYPE[c.name]) == 'simple'
+                 and spec.simple_info(spec.simple_content_type(spec.ELEM_TYPE[c.name]) or 'x')['kind'] in ('string', 'token')]
+        val = rng.choice(['la ', ' e ', '  two  spaces', 'tab\t', ' lead'])
+        if texty:
+            t = rng.choice(texty)
+            tp = w.path_of(t)
+            if tp and rng.random() < 0.5:
+                yield {'op': 'VALUE_SET', 'a': actor, 'p': tp, 'value': val}
+            elif sum(1 for c in node.children if c.name == t.name) == 1:
+                yield {'op': 'DOT_SET', 'a': actor, 'p': path, 'name': t.name, 'v': {'kind': 'value', 'value': val}}
+        else:
+            from .workloads import string_positions
+            opts = [x for x in (spec.model_for_element(node.name).alpha if spec.model_for_element(node.name) else []) if x in string_positions()]
+            comp = kit.compatible(node, opts) if node.xsd_check else opts
+            if comp:
+                yield {'op': 'ADD', 'a': actor, 'p': path, 'c': dict(kit.childspec(rng.choice(comp), opaque=False), value='plain', kids=[])}
+    elif kind == 'xsd_toggle':
+        # switch xsd_check on an element after construction (a public property)
+        cands = [n for n in root.walk()]
+        t = rng.choice(cands)
+        tp = w.path_of(t)
+        if tp:
+            yield {'op': 'XSD_CHECK_SET', 'a': actor, 'p': tp, 'value': not t.xsd_check}
+    elif kind == 'remove_elsewhere':
+        # ask an element to remove a child that belongs to another element (same or another document)
+        pool = []
+        for dname, droot in sorted(w.docs.items()):
+            for n in droot.walk():
+                if n.parent is not None and n.parent is not node:
+                    pool.append(n)
+        if pool and node.xsd_check:
+            t = rng.choice(pool)
+            tp = w.path_of(t)
+            if tp and (tp[0] == doc or cfg.get('cross_doc_faults')):
+                yield {'op': 'REMOVE', 'a': actor, 'p': path, 'i': 0, 'attached': tp, 'fault': 'rej.not_a_child'}
+    elif kind == 'attr_xml':
+        # the XML spelling of an attribute name (hyphens), as the parser uses it
+        at = kit.valid_attrs(node.name, 1)
+        for k, v in at.items():
+            yield {'op': 'ATTR_SET', 'a': actor, 'p': path, 'name': k, 'value': v, 'spelling': 'xml'}
     elif kind == 'replace_raw':
         if node.children:
             yield {'op': 'REPLACE', 'a': actor, 'p': path, 'i': rng.randrange(len(node.children)),
